@@ -149,10 +149,10 @@ def interesting(prop, ops):
     if prop == 'C09':
         return len(kinds - {'none'}) >= 2
     if prop == 'C10':
-        return bool(kinds & {'div', 'move', 'moveupd', 'moveback', 'gendel', 'gen2'})
+        return bool(kinds & {'div', 'divx', 'move', 'moveupd', 'moveback', 'gendel', 'gen2'})
     if prop == 'C05':
         return any(o.get('mode') == 'step' for o in ops) or any(o.get('tpl') in ('T2', 'T4', 'T5') for o in ops)
-    return bool(kinds & {'add', 'gen', 'div', 'move', 'del', 'delpath'})
+    return bool(kinds & {'add', 'gen', 'div', 'divx', 'move', 'del', 'delpath'})
 
 
 def validate(rep, prop, hists, scratch, label='store'):
